@@ -128,6 +128,9 @@ def run_chain(ctx, c, api, override, top, levels, case):
     vfs = {}
     for i, cfg in enumerate(levels, 1):
         vfs['http://h/L%d.css' % i] = cfg
+    # an @import added to the finished sheet later on (after its encoding was set anew): served with or without a charset of its own
+    late_cfg = (None, [None, 'charset:mac-roman', None, 'bom'][(len(levels) + (1 if override else 0) + (2 if top[0] else 0)) % 4], 'bytes', 'data')
+    late_parent = [None]
     asked = []
     # the encoding of the referring sheet, by the model (decides how a level without information of its own is written)
     parents = {}
@@ -143,6 +146,8 @@ def run_chain(ctx, c, api, override, top, levels, case):
         if url == 'http://h/top.css':
             cfg = (top[2], top[0], top[1], 'data')
             return cfg[0], level_content(0, cfg, last=not levels)
+        if url == 'http://h/late.css':
+            return late_cfg[0], level_content(9, late_cfg, last=True, parent_enc=late_parent[0], override=None)
         cfg = vfs.get(url)
         if cfg is None:
             return None
@@ -238,6 +243,30 @@ def run_chain(ctx, c, api, override, top, levels, case):
         if norm(rule_enc) != norm(child.encoding):
             problems.append('level %d: encoding attribute %r but @charset rule says %r' % (i, child.encoding, rule_enc))
         parent_sheet, parent_enc = child, enc
+    if not problems:
+        # ---- the finished sheet is told another encoding, then an @import rule object is added: what the parse call was given (override,
+        # transport charset) is history; the target is decoded by its own information, else by what the sheet says now
+        new_enc = [None, 'iso-8859-5', 'cp437'][(len(asked) + len(levels)) % 3]
+        try:
+            ctx.count('oracle.late-import')
+            sheet.encoding = new_enc
+            late_parent[0] = new_enc or 'utf-8'
+            rule = c.css.CSSImportRule(href='late.css')
+            pos = len([r for r in sheet.cssRules if type(r).__name__ in ('CSSCharsetRule', 'CSSImportRule')])
+            sheet.insertRule(rule, pos)
+            child = rule.styleSheet
+            want_enc = model_encoding(None, late_cfg, new_enc or 'utf-8')
+            if child is None or not len(child.cssRules):
+                problems.append('late import: delivered but the imported sheet is empty (ladder: %s, sheet now says %s)' % (want_enc, sheet.encoding))
+            else:
+                if norm(child.encoding) != norm(want_enc):
+                    problems.append('late import reports %r, ladder says %r (the sheet now says %r)' % (child.encoding, want_enc, sheet.encoding))
+                got = probe_of(child, 9)
+                want = expected_probe(9, late_cfg, want_enc, new_enc or 'utf-8', None)
+                if got != want:
+                    problems.append('late import decoded %r, ladder (%s) gives %r' % (got, want_enc, want))
+        except Exception as e:
+            problems.append('late import: %s' % core.short_tb(e)[-300:])
     if problems:
         feats = []
         if api == 'parseUrl' and not override and (top[2] or (top[0] and top[1] == 'bytes')) and any('level' in p for p in problems) and not any(p.startswith('top') for p in problems):
